@@ -778,6 +778,8 @@ def close_releases(ctx):
                     return (v,) if truth else ()   # a disconnect() caller is waiting
                 if t == 'self.disconnection_result is None':
                     return () if truth else (v,)
+            if t == 'self.disconnection_result.done()' and truth:
+                return (v._replace(disc=1),)   # already completed (its waiter gave up or was served)
             if t == 'self.state != self.State.DISCONNECTING' and not truth:
                 return (v._replace(from_disconnecting=1),)   # disconnect() already flushed the output
             return (v,)
@@ -951,6 +953,8 @@ def classic_close_releases(ctx):
                     return (v,) if truth else ()     # a disconnect() caller is waiting
                 if t == 'self.disconnection_result is None':
                     return () if truth else (v,)
+                if t == 'self.disconnection_result.done()' and truth:
+                    return ((v[0], True),)           # already completed (its waiter gave up or was served)
                 return (v,)
         res = paths.run(m, D(), (False, False))
         bad = [' '.join(w) for k, st in res.items() if not k.startswith('raise') for (closed, settled), w in st.items() if closed and not settled]
